@@ -85,7 +85,9 @@ Alphabet(f) ==
   ELSE IF f = "climatedata" THEN {<<"set_window", 1>>, <<"set_window", 2>>, <<"set_global_window", 0>>}
   \* surrogates: twin_surrogates re-embeds as a side effect of a QUERY, so the embedding is not part of the
   \* abstract state; the one state change is the in-place normalisation of the stored data
-  ELSE {<<"normalize_original_data", 0>>}
+  \* ... and the public embedding setter (a foreign embedding: other dimension / delay), which every
+  \* twin_surrogates query overwrites again
+  ELSE {<<"normalize_original_data", 0>>, <<"embedding", 1>>, <<"embedding", 2>>}
 
 NoLA(a) == IF "LA" \in DOMAIN a THEN [a EXCEPT !.LA = 0] ELSE a
 Kept(mode) == IF mode = "link_density" \/ mode = "kept_threshold" THEN "kept_threshold" ELSE mode
